@@ -493,7 +493,9 @@ impl DeviceControl for ControlHandle {
 
         match comp_type {
             CompressionType::Zip => {
-                let mut zip = zip::ZipArchive::new(std::io::Cursor::new(buf)).unwrap();
+                let mut zip = unwrap_or_log!(
+                    zip::ZipArchive::new(std::io::Cursor::new(buf)).map_err(zip_err)
+                );
                 if zip.len() != 1 {
                     return Err(zip_err("more than one files in zipped GenApi XML"));
                 }
